@@ -41,6 +41,10 @@ WORDS32 = ("program_state_register", "stack_pointer", "link_register", "mbox_ap_
            "sw_line", "time", "iobuf_address")
 
 
+ISZ_CHOICES = [16, 20, 64, 100, 300, 17, 30, 255, 1]
+REFUSALS = [0x87, 0x8b, 0x8c, 0x8e]      # no route, no reply to open, open rejected, Ethernet chip <-> target time-out
+
+
 def h32(v):
     """a 32-bit quantity as [high half, low half] (TLC integers are 32-bit signed)"""
     return [v >> 16, v & 0xffff]
@@ -91,6 +95,9 @@ def gen_state(rng, w, h, density=None, label="random"):
     unresp = []
     if len(live) > 1 and rng.random() < 0.35:
         unresp = rng.sample([c for c in live if c != root], min(len(live) - 1, rng.randint(1, 2)))
+    # a chip that is in the P2P table but cannot be reached is either silent or - what real machines mostly do -
+    # the Ethernet chip's monitor answers for it with a fatal P2P return code
+    refusing = [c for c in unresp if rng.random() < 0.5]
     responding = [c for c in live if c not in unresp]
     rset = set(responding)
 
@@ -106,6 +113,9 @@ def gen_state(rng, w, h, density=None, label="random"):
     shared_state = {i: rng.choice(BUSY_STATES) for i in range(18)}
     link_mode = rng.choice(["geometry", "geometry", "geometry_torn", "random", "none", "all"])
     eth_p = rng.choice([0.0, 0.1, 0.5])
+    # size of one console buffer block: a per-chip system variable, not always a multiple of four
+    isz_default = rng.choice(ISZ_CHOICES)
+    isz_dev = rng.choice([0.0, 0.0, 0.5])
 
     chips = []
     for (x, y) in responding:
@@ -141,10 +151,12 @@ def gen_state(rng, w, h, density=None, label="random"):
                                                                      rng.randint(0, 1023)])
         eth = rng.random() < eth_p
         chips.append(dict(x=x, y=y, nc=nc, states=states, links=links, sdram=h32(sdram), sram=h32(sram), rtr=rtr,
+                          isz=isz_default if rng.random() >= isz_dev else rng.choice(ISZ_CHOICES),
                           eth=eth, ip=[rng.randrange(256) for _ in range(4)] if (eth or rng.random() < 0.3) else [0, 0, 0, 0],
                           leth=[rng.randrange(256), rng.randrange(256)] if rng.random() < 0.3 else [x - x % 8 if x >= 8 else 0, 0]))
     index = {(c["x"], c["y"]): i + 1 for i, c in enumerate(chips)}
-    grid = [[index.get((x, y), -1 if (x, y) in unresp else 0) for y in range(h)] for x in range(w)]
+    grid = [[index.get((x, y), (-2 if (x, y) in refusing else -1) if (x, y) in unresp else 0) for y in range(h)]
+            for x in range(w)]
 
     legacy = rng.random() < 0.4
     pcpu = list(range(18))
@@ -161,7 +173,7 @@ def gen_state(rng, w, h, density=None, label="random"):
     if legacy and ver["major"] * 100 + ver["minor"] >= 0xFFFF:
         ver["major"] = 654
     S = dict(w=w, h=h, root=list(root), grid=grid, chips=chips, ver=ver,
-             iobuf_size=rng.choice([16, 20, 64, 100, 300]), vcpus=[], blocks=[], diags=[], label=label)
+             iobuf_size=isz_default, vcpus=[], blocks=[], diags=[], label=label)
     # (the per-core status blocks do not sit at the same address on every chip)
     common = SYSRAM_BASE + 0x4000 + 0x80 * rng.randrange(0, 32)
     for c in chips:
@@ -172,13 +184,13 @@ def gen_state(rng, w, h, density=None, label="random"):
 def plant_extras(rng, S, n_cores=2, n_diags=1):
     """Per-core status blocks, console buffer chains and router counters for a few cores / chips."""
     chips = S["chips"]
-    isz = S["iobuf_size"]
-    slot = (isz + 16 + 3) & ~3
+    slot = (max(c["isz"] for c in chips) + 16 + 3) & ~3
     used = {}
     picked = set()
     for _ in range(n_cores):
         c = rng.choice(chips)
         p = rng.randrange(c["nc"])
+        isz = c["isz"]
         if (c["x"], c["y"], p) in picked:
             continue
         picked.add((c["x"], c["y"], p))
@@ -191,7 +203,7 @@ def plant_extras(rng, S, n_cores=2, n_diags=1):
         b[72:88] = name + b"\0" * (16 - len(name))
         # console buffer chain
         ascii_only = rng.random() < 0.5
-        nblk = rng.choice([0, 1, 1, 2, 3])
+        nblk = rng.choice([0, 1, 1, 2, 3, 5])
         slots = used.setdefault((c["x"], c["y"]), set())
         addrs = []
         while len(addrs) < nblk + (1 if rng.random() < 0.3 else 0):      # sometimes a decoy block outside the chain
@@ -221,29 +233,63 @@ def plant_extras(rng, S, n_cores=2, n_diags=1):
 
 
 # ------------------------------------------------------------------------------------------ the environment
+def plant_chip(sim, c, rng):
+    """Put the simulated chip into the state the record c describes (mechanical translation)."""
+    ch = sim.chips[(c["x"], c["y"])]
+    ch.ncores = c["nc"]
+    ch.core_state = list(c["states"]) + [0] * (18 - c["nc"])
+    ch.links = set(c["links"])
+    ch.sdram_next = SDRAM_BASE
+    ch.sdram_limit = SDRAM_BASE + u32(c["sdram"])
+    ch.sram_free = u32(c["sram"])
+    ch.largest_free_rtr_block = (lambda k=c["rtr"]: k)
+    ch.eth_up = c["eth"]
+    ch.ip = tuple(c["ip"])
+    ch.local_eth = tuple(c["leth"])
+    ch.info_junk = rng.randrange(1 << 32) if rng.random() < 0.3 else 0
+    ch.vcpu_base = u32(c["vbase"])
+    ch.iobuf_size = c.get("isz", sim.iobuf_size)         # (hosted jobs plant states with one size for the machine)
+    sim.sync_sv(ch)
+
+
+def changed_chip(rng, c):
+    """The record of chip c some time later: applications were loaded or stopped, memory and router entries were
+    allocated or freed, a link or a core was lost, the Ethernet cable was pulled.  (The address of the status
+    blocks and the console block size stay.)"""
+    n = dict(c)
+    states = list(c["states"])
+    for i in rng.sample(range(len(states)), rng.randint(1, min(3, len(states)))):
+        states[i] = rng.choice([s for s in VALID_STATES if s != states[i]])
+    if rng.random() < 0.3:
+        n["nc"] = rng.randint(1, 18)
+        states = (states + [IDLE] * 18)[:n["nc"]]
+    n["states"] = states
+    if rng.random() < 0.5:
+        n["links"] = [l for l in range(6) if rng.random() < 0.5]
+    if rng.random() < 0.6:
+        n["sdram"] = h32(rand_word(rng))
+    if rng.random() < 0.4:
+        n["sram"] = h32(rng.randrange(1 << 16))
+    if rng.random() < 0.6:
+        n["rtr"] = rng.choice([0, 1, 1023, rng.randint(0, 2047)])
+    if rng.random() < 0.3:
+        n["eth"] = not c["eth"]
+        n["ip"] = [rng.randrange(256) for _ in range(4)]
+    return n
+
+
 def configure_sim(S, rng, extra_p2p=()):
     """Build the simulated machine that is in abstract state S (mechanical translation of S)."""
     live = [(c["x"], c["y"]) for c in S["chips"]]
     unresp = [(x, y) for x in range(S["w"]) for y in range(S["h"]) if S["grid"][x][y] == -1]
+    refusing = [(x, y) for x in range(S["w"]) for y in range(S["h"]) if S["grid"][x][y] == -2]
     ver = S["ver"]
-    sim = ProbeSim(S["w"], S["h"], STRUCT_TEXT, live + unresp, root=tuple(S["root"]), buffer_size=ver["bufsize"],
-                   iobuf_size=S["iobuf_size"])
+    sim = ProbeSim(S["w"], S["h"], STRUCT_TEXT, live + unresp + refusing, root=tuple(S["root"]),
+                   buffer_size=ver["bufsize"], iobuf_size=S["iobuf_size"])
     for c in S["chips"]:
-        ch = sim.chips[(c["x"], c["y"])]
-        ch.ncores = c["nc"]
-        ch.core_state = list(c["states"]) + [0] * (18 - c["nc"])
-        ch.links = set(c["links"])
-        ch.sdram_next = SDRAM_BASE
-        ch.sdram_limit = SDRAM_BASE + u32(c["sdram"])
-        ch.sram_free = u32(c["sram"])
-        ch.largest_free_rtr_block = (lambda k=c["rtr"]: k)
-        ch.eth_up = c["eth"]
-        ch.ip = tuple(c["ip"])
-        ch.local_eth = tuple(c["leth"])
-        ch.info_junk = rng.randrange(1 << 32) if rng.random() < 0.3 else 0
-        ch.vcpu_base = u32(c["vbase"])
-        sim.sync_sv(ch)
+        plant_chip(sim, c, rng)
     sim.set_unresponsive(unresp)
+    sim.set_refusing({xy: rng.choice(REFUSALS) for xy in refusing})
     sim.version = (ver["major"], ver["minor"], ver["patch"])
     sim.legacy_version = ver["legacy"]
     sim.name = bytes(ver["name"]).decode()
@@ -284,6 +330,7 @@ def enc_chip(xy, ci):
 def enc_sysinfo(si):
     return ([enc_chip(xy, ci) for xy, ci in si.items()] + [
         ["sysinfo", si.width, si.height],
+        ["sys_chips", [list(c) for c in si.chips()]],
         ["sys_dead_chips", si.width, si.height, [list(c) for c in si.dead_chips()]],
         ["sys_links", [[x, y, int(l)] for x, y, l in si.links()]],
         ["sys_dead_links", [[x, y, int(l)] for x, y, l in si.dead_links()]],
@@ -291,7 +338,7 @@ def enc_sysinfo(si):
         ["sys_eth", [[xy[0], xy[1], ip] for xy, ip in si.ethernet_connected_chips()]]])
 
 
-SYS_PLAN = ["sysinfo", "sys_dead_chips", "sys_links", "sys_dead_links", "sys_cores", "sys_eth"]
+SYS_PLAN = ["sysinfo", "sys_chips", "sys_dead_chips", "sys_links", "sys_dead_links", "sys_cores", "sys_eth"]
 
 
 def enc_machine(how, m, rnames):
@@ -372,13 +419,50 @@ def contains_queries(rng, S, si, n):
             l = rng.randrange(6)
             q, t = [x, y, l], (x, y, Links(l))
         elif kind == "core":
-            p = rng.randint(0, 18)
+            p = rng.choice([-1, -2, 18] + list(range(19)))
             q, t = [x, y, p], (x, y, p)
         else:
-            p, s = rng.randint(0, 18), rng.choice(VALID_STATES)
+            p, s = rng.choice([-1, -1, -2] + list(range(19))), rng.choice(VALID_STATES)
+            if (x, y) in si and rng.random() < 0.4:        # the state some core of that chip really is in
+                s = int(rng.choice(si[(x, y)].core_states))
             q, t = [x, y, p, s], (x, y, p, consts.AppState(s))
         evs.append(["contains", kind, q, bool(t in si)])
     return evs
+
+
+def shaped(mc, rng, meth, x, y, p=None, pname="p", p_first=True):
+    """mc.<meth> for chip (x, y) [core p], the coordinates being passed in one of the documented ways: by position,
+    by keyword, or left to an enclosing `with mc(...)` block (all of them, or only the chip)."""
+    f = getattr(mc, meth)
+    shape = rng.choice(["pos", "pos", "kw", "ctx", "ctx_xy"])
+    if shape == "pos":
+        if p is None:
+            return f(x, y)
+        return f(p, x, y) if p_first else f(x, y, p)
+    if shape == "kw":
+        return f(x=x, y=y) if p is None else f(x=x, y=y, **{pname: p})
+    if shape == "ctx" and (p is None or pname == "p"):
+        with (mc(x=x, y=y) if p is None else mc(x=x, y=y, p=p)):
+            return f()
+    with mc(x=x, y=y):
+        if p is None:
+            return f()
+        return f(p) if (p_first and rng.random() < 0.5) else f(**{pname: p})
+
+
+def chip_query(mc, rng, kind, x, y):
+    """one of the single-chip public questions"""
+    if kind == "links":
+        return ["chipq", kind, x, y, [int(l) for l in shaped(mc, rng, "get_working_links", x, y)]]
+    if kind == "ncores":
+        return ["chipq", kind, x, y, int(shaped(mc, rng, "get_num_working_cores", x, y))]
+    if kind == "ip":
+        ip = shaped(mc, rng, "get_ip_address", x, y)
+        return ["chipq", kind, x, y, [] if ip is None else [ip]]
+    return ["chipq", kind, x, y, enc_chip((x, y), shaped(mc, rng, "get_chip_info", x, y))]
+
+
+CHIPQ_KINDS = ["links", "ncores", "ip", "info"]
 
 
 # ------------------------------------------------------------------------------------------ one probing trace
@@ -403,7 +487,17 @@ def probe_trace(S, rng, opts):
     holder = {}
 
     def do_sysinfo():
-        si = mc.get_system_info(*start_xy) if explicit_start else mc.get_system_info()
+        if not explicit_start:
+            si = mc.get_system_info()
+        else:
+            how = rng.choice(["pos", "kw", "ctx"])
+            if how == "pos":
+                si = mc.get_system_info(*start_xy)
+            elif how == "kw":
+                si = mc.get_system_info(x=start_xy[0], y=start_xy[1])
+            else:
+                with mc(x=start_xy[0], y=start_xy[1]):
+                    si = mc.get_system_info()
         holder["si"] = si
         return enc_sysinfo(si)
     calls.append((SYS_PLAN, do_sysinfo, True))
@@ -412,26 +506,52 @@ def probe_trace(S, rng, opts):
     calls.append((DERIVED_PLAN, lambda: derived_events(holder["si"], rng, opts.get("custom_resources", False)), False))
     for v in S["vcpus"]:
         x, y, p = v["x"], v["y"], v["p"]
-        calls.append((["status"], lambda x=x, y=y, p=p: [["status", x, y, p, enc_status(mc.get_processor_status(p, x, y))]], False))
-        calls.append((["iobuf"], lambda x=x, y=y, p=p: [["iobuf", x, y, p, list(mc.get_iobuf_bytes(p, x, y))]], False))
+        calls.append((["status"], lambda x=x, y=y, p=p: [["status", x, y, p, enc_status(shaped(mc, rng, "get_processor_status", x, y, p))]], False))
+        calls.append((["iobuf"], lambda x=x, y=y, p=p: [["iobuf", x, y, p, list(shaped(mc, rng, "get_iobuf_bytes", x, y, p))]], False))
         if v["ascii"]:
-            calls.append((["iobuf"], lambda x=x, y=y, p=p: [["iobuf", x, y, p, list(mc.get_iobuf(p, x, y).encode("utf-8"))]], False))
+            calls.append((["iobuf"], lambda x=x, y=y, p=p: [["iobuf", x, y, p, list(shaped(mc, rng, "get_iobuf", x, y, p).encode("utf-8"))]], False))
     for d in S["diags"]:
         x, y = d["x"], d["y"]
         calls.append((["diag"], lambda x=x, y=y: [["diag", x, y, [[k, h32(v)] for k, v in
-                                                                 mc.get_router_diagnostics(x, y)._asdict().items()]]], False))
+                                                                 shaped(mc, rng, "get_router_diagnostics", x, y)._asdict().items()]]], False))
     for (x, y, p) in opts.get("versions", []):
         if (x, y, p) == (255, 255, 0):
             rx, ry = S["root"]
             calls.append((["version"], lambda rx=rx, ry=ry: [["version", rx, ry, 0, enc_version(mc.get_software_version())]], False))
         else:
-            calls.append((["version"], lambda x=x, y=y, p=p: [["version", x, y, p, enc_version(mc.get_software_version(x, y, p))]], False))
+            calls.append((["version"], lambda x=x, y=y, p=p: [["version", x, y, p, enc_version(
+                shaped(mc, rng, "get_software_version", x, y, p, pname="processor", p_first=False))]], False))
     if opts.get("get_machine"):
         def do_get_machine():
             m = mc.get_machine(*start_xy) if explicit_start else mc.get_machine()
             return [enc_machine("get_machine", m, DEFAULT_RNAMES)]
         calls.append((["machine"], do_get_machine, True))
+    for (kind, x, y) in opts.get("chipq", []):
+        calls.append((["chipq"], lambda kind=kind, x=x, y=y: [chip_query(mc, rng, kind, x, y)], False))
     order = calls[:3] + rng.sample(calls[3:], len(calls) - 3)
+    if opts.get("reprobe"):
+        # the machine changes under a controller that has already probed it; what is asked afterwards must be
+        # answered from the machine as it is now
+        changed = []
+
+        def do_change():
+            for c in rng.sample(S["chips"], min(len(S["chips"]), rng.randint(1, 3))):
+                n = changed_chip(rng, c)
+                plant_chip(sim, n, rng)
+                changed.append(n)
+            return [["change", changed]]
+        order.append(([], do_change, False))
+        for kind in opts["reprobe"]["first"]:
+            order.append((["chipq"], lambda kind=kind: [chip_query(mc, rng, kind, changed[0]["x"], changed[0]["y"])], False))
+        if opts["reprobe"]["how"] == "get_machine":
+            order.append((["machine"], lambda: [enc_machine(
+                "get_machine", mc.get_machine(*start_xy) if explicit_start else mc.get_machine(), DEFAULT_RNAMES)], True))
+        else:
+            order.append(calls[0])
+            order.append((["contains"] * 2, lambda: contains_queries(rng, S, holder["si"], 2), False))
+            order.append(calls[2])
+        for kind in opts["reprobe"]["last"]:
+            order.append((["chipq"], lambda kind=kind: [chip_query(mc, rng, kind, changed[-1]["x"], changed[-1]["y"])], False))
     for names, thunk, is_probe in order:
         plan.extend(names)
     try:
@@ -489,7 +609,7 @@ def small_state(rng, pattern, shuffle_mem):
         chips.append(dict(x=i, y=0, nc=nc, states=states, links=links,
                           sdram=h32(rng.choice([100, 200]) if shuffle_mem else 100),
                           sram=h32(rng.choice([7, 9]) if shuffle_mem else 7), rtr=rng.choice([1023, 5]),
-                          eth=False, ip=[0, 0, 0, 0], leth=[0, 0], vbase=h32(SYSRAM_BASE + 0x4000 + 0x900 * (i % 3))))
+                          eth=False, ip=[0, 0, 0, 0], leth=[0, 0], isz=16, vbase=h32(SYSRAM_BASE + 0x4000 + 0x900 * (i % 3))))
     grid = [[i + 1] for i in range(n)] if n else [[0]]
     return dict(w=w, h=1, root=[0, 0], grid=grid, chips=chips,
                 ver=dict(legacy=True, major=1, minor=0, patch=0, labels=[], name=[120], bufsize=256, date=[0, 0],
@@ -587,6 +707,14 @@ def generate(chk, rng):
                     get_machine=(not big) and rng.random() < 0.3, versions=[])
         if rng.random() < 0.25:
             opts["explicit_start"] = rng.choice(S["chips"])
+        opts["chipq"] = []
+        for _ in range(rng.choice([0, 0, 1, 2])):
+            c = rng.choice(S["chips"])
+            opts["chipq"].append((rng.choice(CHIPQ_KINDS), c["x"], c["y"]))
+        if not big and rng.random() < 0.3:
+            opts["reprobe"] = dict(how=rng.choice(["get_system_info", "get_system_info", "get_machine"]),
+                                   first=rng.sample(CHIPQ_KINDS, rng.choice([0, 1, 2])),
+                                   last=rng.sample(CHIPQ_KINDS, rng.choice([0, 1])))
         for _ in range(rng.choice([0, 1, 1, 2])):
             if rng.random() < 0.3:
                 opts["versions"].append((255, 255, 0))
@@ -603,6 +731,10 @@ def generate(chk, rng):
     chk.count("chips described in those states", n_chips_probed)
     chk.count("states with dead (absent) chips", sum(1 for t in probed if any(0 in col for col in t["grid"])))
     chk.count("states with unresponsive chips", sum(1 for t in probed if any(-1 in col for col in t["grid"])))
+    chk.count("states with chips answered for by a fatal return code", sum(1 for t in probed if any(-2 in col for col in t["grid"])))
+    chk.count("states changed under the controller and probed again", sum(1 for t in probed for e in t["ev"] if e[0] == "change"))
+    chk.count("single-chip questions (working links, cores, IP address, chip info)", sum(1 for t in probed for e in t["ev"] if e[0] == "chipq"))
+    chk.count("states with console block sizes that are not a multiple of four", sum(1 for t in probed if any(c["isz"] % 4 for c in t["chips"])))
     chk.count("states with legacy version encoding", sum(1 for t in probed if t["ver"]["legacy"]))
     chk.count("console buffer chains of >= 2 blocks", sum(1 for t in probed for v in t["vcpus"]
               if sum(1 for b in t["blocks"] if (b["x"], b["y"]) == (v["x"], v["y"])) >= 2))
@@ -613,10 +745,12 @@ def generate(chk, rng):
                 "2x255 (quick); any subset of chips absent, 0-2 chips listed in the P2P table but silent, last row / "
                 "column absent; per chip 1..18 cores, core states from SARK's 13 states in schemes fresh-boot / shared "
                 "application / random / all busy / all idle / mixed, working links from geometry, torn, random, none, "
-                "all; free SDRAM/SRAM over the whole 32-bit range, router blocks 0..2047, Ethernet up/down with IP and "
+                "all; chips in the P2P table that are silent or are answered for with a fatal return code; free SDRAM/SRAM over the whole 32-bit range, router blocks 0..2047, Ethernet up/down with IP and "
                 "local Ethernet chip, junk in unassigned reply bits; software version in both encodings with labels "
-                "and optional final NUL; 0-3 planted status blocks with console chains of 0-3 blocks (block sizes "
-                "16..300, decoy blocks, text or binary) and 0-2 planted router counter sets.  Outside the domain and "
+                "and optional final NUL; 0-3 planted status blocks with console chains of 0-5 blocks (per-chip block "
+                "sizes 1..300, also not multiples of four, decoy blocks, text or binary) and 0-2 planted router counter sets; "
+                "coordinates passed by position, keyword or enclosing context block; single-chip questions; in 3 of 10 "
+                "states 1-3 chips change after the first probe and the machine is probed again through the same controller.  Outside the domain and "
                 "never generated: core-state bytes 12-14, an absent or silent root chip.  non-trivial = more than one "
                 "responding chip or a planted status block (small scope: at least one busy core); distinct = "
                 "distinct abstract states")
@@ -643,7 +777,7 @@ def selftest(chk):
     rng = random.Random(5)
     S = gen_state(rng, 3, 2, density=1.0, label="selftest")
     # make the state interesting in a known way: one absent chip, one silent chip, distinct core patterns
-    while (len(S["chips"]) < 4 or not any(-1 in col for col in S["grid"])
+    while (len(S["chips"]) < 4 or not any(-1 in col for col in S["grid"]) or not any(-2 in col for col in S["grid"])
            or not any(c["eth"] for c in S["chips"]) or S["ver"]["legacy"]
            or not all(any(s != IDLE for s in c["states"]) and c["links"] and len(c["links"]) < 6 for c in S["chips"])):
         S = gen_state(rng, 3, 2, density=0.9, label="selftest")
@@ -651,7 +785,9 @@ def selftest(chk):
         S["vcpus"], S["blocks"], S["diags"] = [], [], []
         plant_extras(rng, S, n_cores=2, n_diags=1)
     c0 = S["chips"][0]
-    opts = dict(contains=2, versions=[(c0["x"], c0["y"], 0)], get_machine=False)
+    opts = dict(contains=2, versions=[(c0["x"], c0["y"], 0)], get_machine=False,
+                chipq=[(k, c0["x"], c0["y"]) for k in CHIPQ_KINDS],
+                reprobe=dict(how="get_system_info", first=["info"], last=["ncores"]))
     good = strip(probe_trace(S, random.Random(1), opts))
 
     def idx(tr, name, nth=0):
@@ -724,6 +860,28 @@ def selftest(chk):
         (mut(corrupt_p2p), "EnvReadIsMemory"),
         (mut(wrong_state), "EnvInfoReplyEncodesState"),
         (mut(lambda t: t["ev"].insert(idx(t, "end"), ["raise", "SCPError"])), "NoException"),
+    ]
+    def chipq_i(t, kind):
+        return [i for i, e in enumerate(t["ev"]) if e[0] == "chipq" and e[1] == kind][0]
+
+    def set_q(kind, fn):
+        def f(t):
+            e = t["ev"][chipq_i(t, kind)]
+            e[4] = fn(e[4])
+        return f
+    refused_i = [i for i, e in enumerate(good["ev"]) if e[0] == "scp" and e[8] and e[8][0] in REFUSALS
+                 and good["grid"][e[2]][e[3]] == -2][0]
+
+    def answer_for_refused(t):
+        t["ev"][refused_i][8] = [128]
+    cases += [
+        (mut(set_ev("sys_chips", [1], lambda v: v[1:])), "ChipsExactlyResponding"),
+        (mut(set_q("links", lambda v: v[1:] if v else [0])), "WorkingLinksTrue"),
+        (mut(set_q("ncores", lambda v: v % 18 + 1)), "CoreCountsTrue"),
+        (mut(set_q("ip", lambda v: [] if v else ["1.2.3.4"])), "EthernetTrue"),
+        (mut(set_q("info", lambda v: v[:8] + [v[8] ^ 1] + v[9:])), "RouterBlocksTrue"),
+        (mut(drop("change")), "EnvInfoReplyEncodesState"),
+        (mut(answer_for_refused), "EnvUnreachableChipIsRefused"),
     ]
     iob = [i for i, e in enumerate(good["ev"]) if e[0] == "iobuf" and e[4]]
     if iob:
